@@ -128,7 +128,7 @@ func runC06(c *core.Ctx) {
 	}
 	for _, dsse := range []bool{false, true} {
 		for _, runDir := range []bool{false, true} {
-			for _, shape := range []string{"flat", "expired-sublayout", "expired-root-over-sublayout"} {
+			for _, shape := range []string{"flat", "expired-sublayout", "expired-root-over-sublayout", "empty-layout"} {
 				for ci, ec := range cases {
 					cn++
 					if !c.Mine(cn) {
@@ -149,11 +149,15 @@ func runC06(c *core.Ctx) {
 					var err error
 					helper := Helper(c)
 					switch shape {
-					case "flat":
+					case "flat", "empty-layout":
 						var ch *gen.Chain
 						ch, err = gen.NewChain(root, dsse, runDir, fast[0], fast[1], fast[2], helper)
 						if err == nil {
 							ch.Layout.Expires = exp
+							if shape == "empty-layout" {
+								// a layout that demands nothing is still only valid until it expires
+								ch.Layout.Steps, ch.Layout.Inspect, ch.Layout.Keys = []intoto.Step{}, []intoto.Inspection{}, map[string]intoto.Key{}
+							}
 							_, md, err = ch.WriteLayout("root.layout", ch.Owner)
 							keys, linkDir, finalDir, markerDir = gen.KeyMap(ch.Owner), ch.LinkDir, ch.FinalDir, ch.MarkerDir
 						}
@@ -287,7 +291,7 @@ func init() {
 	core.Register(&core.Property{
 		ID:    "C06",
 		Level: "exploration",
-		Rule: "catalogue of expiry strings: now -/+ {2s,5s,1min,1h,1d,1y,100y}, 'valid when built, verified 2.2 s after it expired', years 0001/1970/2999/9999, 22 malformed forms (empty, date only, offsets, separators, impossible dates, trailing/leading text, other date layouts), arguable forms (leap second, lower case, fraction, one-digit fields: run but not judged); thorough: + 2000 random strings and every single-character mutation of a valid timestamp; x 2 wrappers x 2 entry points x {layout object as signed in memory, layout loaded from its file} x verifier time zones {UTC, America/Los_Angeles, Asia/Tokyo, Pacific/Kiritimati} (by worker) x {flat chain with inspection, valid root over an expired/undated sublayout, expired/undated root over a valid sublayout with its own inspection}. Oracle: call bracket [t0,t1] sampled around the call (no clock of our own), marker files, trace automaton. " +
+		Rule: "catalogue of expiry strings: now -/+ {2s,5s,1min,1h,1d,1y,100y}, 'valid when built, verified 2.2 s after it expired', years 0001/1970/2999/9999, 22 malformed forms (empty, date only, offsets, separators, impossible dates, trailing/leading text, other date layouts), arguable forms (leap second, lower case, fraction, one-digit fields: run but not judged); thorough: + 2000 random strings and every single-character mutation of a valid timestamp; x 2 wrappers x 2 entry points x {layout object as signed in memory, layout loaded from its file} x verifier time zones {UTC, America/Los_Angeles, Asia/Tokyo, Pacific/Kiritimati} (by worker) x {flat chain with inspection, valid root over an expired/undated sublayout, expired/undated root over a valid sublayout with its own inspection, layout without steps and inspections}. Oracle: call bracket [t0,t1] sampled around the call (no clock of our own), marker files, trace automaton. " +
 			"non-trivial = the layout signature phase passed; distinct = (class, label, wrapper, entry point, nesting)",
 		Assumptions: []string{"an expiry inside the call bracket [t0,t1] is inconclusive", "strings of arguable well-formedness (leap second, lower-case t/z, fractional seconds, one-digit fields) are not judged", "a rejected control with a future expiry is inconclusive (observation floor on accepted controls)"},
 		Workers:     func(string) int { return 16 },
